@@ -34,7 +34,7 @@ void h_send(void)
 {
     static const char *const fmts[] = { "o %s", "U %s", "u %s", "N %s", "I %s", "M :%s", "C :%s", "k :%s", "R %s %s", "R %s", "D %s", "D", "d",
                                         "> :%s", "G %d", "A %s :%s", "S %s :%s", "X %s %s :%s", "V :%s %s", "a", "s", "O S%s" };
-    char want[200]; unsigned w = 0, i, nl = 0;
+    char want[128]; unsigned w = 0, i, nl = 0;
     const char *f;
     req = mk_request();
     V_IN(in_kind); V_IN(in_arg0); V_IN(in_arg1); V_IN(in_with_req);
@@ -64,10 +64,11 @@ void h_send(void)
         }
         want[w++] = '\n';
         V_ASSERT(g_out_len == w, "C09: a client-directed line is <word> <id> <address text> <port><arguments> and one newline (length)");
-        for (i = 0; i < 200; i++)
+        for (i = 0; i < 128; i++)
             if (i < w && i < g_out_len) V_ASSERT(g_out[i] == want[i], "C09: a client-directed line carries the client's id, its address text and the announced port, then the arguments");
     }
-    for (i = 0; i < 1200; i++) if (i < g_out_len && g_out[i] == '\n') nl++;
+    V_ASSERT(g_out_len < 128, "C09: a line built from short arguments is short");
+    for (i = 0; i < 128; i++) if (i < g_out_len && g_out[i] == '\n') nl++;
     V_ASSERT(g_out_len > 1 && g_out[g_out_len - 1] == '\n' && nl == 1, "C09: exactly one line is written - the only newline is the last byte");
     V_ASSERT(g_out[0] == f[0] && (g_out[1] == ' ' || g_out[1] == '\n'), "C09: the line starts with the one-letter message type");
     V_ASSERT(g_out_flushes == 1 && g_other_stream_writes == 0, "C09: the line is flushed to the server channel");
